@@ -147,6 +147,43 @@ func vh_unfragmented() {
 	vreach("unfrag")
 }
 
+// IP options and link-layer padding together: the payload handed up (whole datagram or
+// fragment) is exactly TotalLength - HeaderLength bytes after the options.
+func vh_options_padding() {
+	vclockFreeze()
+	env := vhNewEnv()
+	optWords := 1 + vnChoice("optwords", 2) // 4 or 8 bytes of options
+	hlen := 20 + 4*optWords
+	n := 8
+	trailer := 1 + vnChoice("trailer", 3)
+	b := vnBytes("pkt", hlen+n+trailer)
+	frag := vnBool("fragment")
+	flags := uint8(0)
+	if frag {
+		flags = header.IPv4FlagMoreFragments
+	}
+	h := make([]byte, hlen)
+	header.IPv4(h).Encode(&header.IPv4Fields{IHL: uint8(hlen), TotalLength: uint16(hlen + n), ID: vnU16("id"), Flags: flags, TTL: 64, Protocol: 17, SrcAddr: vhRemote, DstAddr: vhLocal})
+	copy(b[:20], h[:20])
+	for i := 20; i < hlen; i++ {
+		b[i] = 1 // NOP options
+	}
+	want := append([]byte{}, b[hlen:hlen+n]...)
+	env.e.HandlePacket(&env.r, vhPkt(b, 0))
+	if !frag {
+		vassert(len(env.disp.Pkts) == 1 && vhSame(env.disp.Pkts[0].Payload, want), "a datagram with options is delivered with exactly its payload (options and padding stripped)")
+		vreach("options-whole")
+		return
+	}
+	vassert(len(env.disp.Pkts) == 0, "a first fragment alone delivers nothing")
+	// the closing fragment (no options, no padding)
+	D2 := vnBytes("D2", 8)
+	f1 := vhHeader(header.IPv4(b).ID(), 0, 8, 8, 17)
+	copy(f1[20:], D2)
+	env.e.HandlePacket(&env.r, vhPkt(f1, 0))
+	vassert(len(env.disp.Pkts) == 1 && vhSame(env.disp.Pkts[0].Payload, append(want, D2...)), "a fragment with options and trailing padding contributes exactly its TotalLength - HeaderLength bytes")
+	vreach("options-fragment")
+}
 
 // ---------- C13: ICMPv4 echo ----------
 
@@ -255,7 +292,7 @@ func vh_icmp4_arbitrary() {
 // ---------- C06: emitted IPv4 packets ----------
 func vh_emit_ipv4() {
 	env := vhNewEnv()
-	hashIV = 1 // the flow hash only selects the identification counter; any counter value is covered
+	hashIV = 1                     // the flow hash only selects the identification counter; any counter value is covered
 	n := vnChoice("hdrlen", 3) * 8 // transport header bytes already prepended: 0, 8, 16
 	m := []int{0, 3, 50}[vnChoice("paylen", 3)]
 	hdr := buffer.NewPrependable(20 + n)
